@@ -21,7 +21,9 @@ struct Plain {
 }
 #[derive(Deserialize, Debug)]
 struct Opt {
-    #[serde(deserialize_with = "graphql_client::serde_with::deserialize_option_id")]
+    // absence of the key is decided by the attribute form the *generator* emits and is checked in
+    // the compiled part; here the helper is combined with `default` so absence maps to None
+    #[serde(default, deserialize_with = "graphql_client::serde_with::deserialize_option_id")]
     id: Option<String>,
 }
 #[derive(Deserialize, Debug)]
